@@ -4,7 +4,7 @@ correspondence module harness/py/props/<ID>.py exists."""
 import json, os
 ROOT = os.path.dirname(os.path.dirname(os.path.abspath(__file__)))
 TXT = {
- 'C01': ('parse_sound/parse_complete/tree_unique for the ladder grammar (all token lists, all trees) + ladder/targets tables regenerated from parser.go + differential parsing of enumerated and random token sequences', 'theorems on the Gallina parser model, tied by gotrans tables and godump AST comparison'),
+ 'C01': ('parse_sound/parse_complete/tree_unique for the ladder grammar (all token lists, all trees), strip_groups_equiv (parentheses at any depth are transparent to evaluation, both directions) + ladder/targets tables regenerated from parser.go + differential parsing of enumerated and random token sequences', 'theorems on the Gallina parser model, tied by gotrans tables and godump AST comparison'),
  'C02': ('operator theorems (Flocq IEEE-754 specs, int64 wrap, equality laws, concatenation) + full operator x value-kind matrix and random doubles against the binary', 'Flocq correctness theorems restated for the model; pow via Go oracle'),
  'C03': ('scope-chain laws and exec_frame invariant for every program + enumerated scope histories and random programs', 'EnvLaws / EvalFrame theorems; correspondence on stdout/diagnostic/status'),
  'C04': ('call/return/closure theorems (return_propagates, fresh activation, closure by reference) + return-placement skeletons and closure interleavings', 'evaluator meta-theory; correspondence'),
